@@ -44,7 +44,9 @@ func TestC09LateAccept(t *testing.T) {
 			})
 			var hist []string
 			t0 := time.Now()
-			logf := func(f string, a ...any) { hist = append(hist, fmt.Sprintf("+%v ", time.Since(t0))+fmt.Sprintf(f, a...)) }
+			logf := func(f string, a ...any) {
+				hist = append(hist, fmt.Sprintf("+%v ", time.Since(t0))+fmt.Sprintf(f, a...))
+			}
 			fail := func(f string, a ...any) {
 				rt.Fatalf("C09 violated (preload=%s reopens=%d closeTimeout=%v): %s\nhistory:\n  %s", preload, reopens, closeTO, fmt.Sprintf(f, a...), strings.Join(hist, "\n  "))
 			}
